@@ -18,8 +18,8 @@
 #include <sys/timerfd.h>
 #include <sanitizer/lsan_interface.h>
 
-static int armed, call_no, fail_at = -1, fail_errno, n_failed;
-static char fail_name[32];
+static int armed, call_no, fail_at = -1, fail_errno, n_failed, fail_at2 = -1, fail_errno2;
+static char fail_name[48];
 static unsigned char lib_fd[4096];          /* descriptors created by library-side calls and not yet closed */
 static int stray_close, stray_fd;
 
@@ -27,6 +27,7 @@ static bool hit(const char *name)
 {
     if (!armed) return false;
     call_no++;
+    if (call_no == fail_at2) { n_failed++; snprintf(fail_name + strlen(fail_name), sizeof(fail_name) - strlen(fail_name), "+%.10s", name); errno = fail_errno2; return true; }
     if (call_no == fail_at) { if (getenv("LIFE_DEBUG")) fprintf(stderr, "failing call %d: %s\n", call_no, name); n_failed++; snprintf(fail_name, sizeof(fail_name), "%s", name); errno = fail_errno; return true; }
     return false;
 }
@@ -257,8 +258,8 @@ int main(void)
 	    if (pid == 0) { armed = 1; fail_at = -1; scenario(w[1], atoi(w[2])); armed = 0; dprintf(pfd[1], "%d\n", call_no); _exit(0); }
 	    __real_close(pfd[1]); char b[64] = ""; read(pfd[0], b, sizeof(b) - 1); __real_close(pfd[0]); int st; waitpid(pid, &st, 0);
 	    fprintf(o, "calls=%d\n", atoi(b));
-	} else if (!strcmp(w[0], "CASE") && n == 5) {
-	    /* CASE <proto> <variant> <k> <errno>: the k-th resource-creating call fails; -1 = none */
+	} else if (!strcmp(w[0], "CASE") && (n == 5 || n == 7)) {
+	    /* CASE <proto> <variant> <k> <errno> [<k2> <errno2>]: the k-th (and the k2-th, k2 > k) resource-creating call fails; -1 = none */
 	    fflush(o);
 	    int pfd[2]; pipe(pfd);
 	    pid_t pid = fork();
@@ -268,6 +269,7 @@ int main(void)
 		int nb = count_fds(before, sizeof(before));
 		memset(lib_fd, 0, sizeof(lib_fd)); stray_close = 0; trace[0] = 0; uxf_path[0] = 0;
 		fail_at = atoi(w[3]); fail_errno = h_errnum(w[4]);
+		fail_at2 = n == 7 ? atoi(w[5]) : -1; fail_errno2 = n == 7 ? h_errnum(w[6]) : 0;
 		armed = 1;
 		scenario(w[1], atoi(w[2]));
 		armed = 0;
